@@ -153,6 +153,21 @@ def run(ctx):
             H.ok("two-functions|k=%d" % k, sample={"k": k, "largest_class": worst})
         else:
             H.violation("monkeytype.stubs:build_module_stubs", "class-stub-too-large:k=%d:%d" % (k, worst), "a rendered TypedDict class has more than k fields", {"k": k}, {"stub": text[:900], "largest": worst})
+    H.section("a field named like its parameter", "a dict argument with a TypedDict-valued field whose name is the parameter's own name (the nested and the outer generated class get the same name), within the limit: "
+              "every rendered TypedDict class has at most k fields", "k in {2, 3}")
+    for k in (2, 3):
+        t = infer.infer(({"config": {"x": 1, "y": 2}, "n": 1},), k)
+        text = build_module_stubs_from_traces([CallTrace(load, {"config": t}, int)], k)[load.__module__].render()
+        try:
+            classes = [n for n in ast.walk(ast.parse(text)) if isinstance(n, ast.ClassDef)]
+            worst = max([len([b for b in c.body if isinstance(b, ast.AnnAssign)]) for c in classes] or [0])
+        except SyntaxError:
+            worst = 0
+        if worst <= k and classes:
+            H.ok("same-named-field|k=%d" % k, sample={"k": k, "largest_class": worst, "classes": len(classes)})
+        else:
+            H.violation("monkeytype.stubs:ReplaceTypedDictsWithStubs._add_typed_dict_class_stub", "class-stub-too-large:same-named-field:k=%d:%d" % (k, worst),
+                        "a rendered TypedDict class has more than k fields (or none is rendered)", {"k": k, "value": "{'config': {'x': 1, 'y': 2}, 'n': 1}"}, {"stub": text[:900], "largest": worst})
     H.section("defaults", "Config.max_typed_dict_size() default is 0 for Config subclasses and DefaultConfig", "2 configs")
     class C(Config):
         def trace_store(self):
